@@ -2,7 +2,7 @@
 # reconfirm_seed.sh <seed-id> ...: re-confirm stored seeded changes against /repo's current HEAD in a scratch worktree
 # (demo passes on pristine, fails with the patch, full suite passes with the patch). Worktree removed afterwards.
 set -u
-WT=/tmp/reconf_wt; mkdir -p /tmp/seedlogs
+WT=${RECONF_WT:-/tmp/reconf_wt}; mkdir -p /tmp/seedlogs
 git -C /repo worktree remove --force $WT 2>/dev/null
 git -C /repo worktree add -q --detach $WT HEAD || exit 2
 export CARGO_NET_OFFLINE=true CARGO_TARGET_DIR=$WT/target
